@@ -39,7 +39,9 @@ abbrev SrcP := Nat × Nat
 inductive Atom
   | lit (n : Int)                                  -- a plain integer
   | par (s i : Nat)                                -- `S<s>.param.v<i>`
-  | fn (deps : List SrcP) (k : Int) (rx : Bool)    -- `bind(f_k, deps…)` / the rx expression over deps
+  | fn (deps : List SrcP) (k : Int) (rx : Bool) (sk : Option Int)
+      -- `bind(f_k, deps…)` / the rx expression over deps; `sk = some b`: the function raises `param.Skip`
+      -- whenever its result would be below b ("no value to offer yet")
   deriving Repr, DecidableEq
 
 inductive Rhs
@@ -136,7 +138,7 @@ def readSrc (w : World) (d : SrcP) : Option Int := (w.src[d.1]?).bind (·[d.2]?)
 def Atom.deps : Atom → List SrcP
   | .lit _ => []
   | .par s i => [(s, i)]
-  | .fn deps _ _ => deps
+  | .fn deps _ _ _ => deps
 
 def Atom.isLit : Atom → Bool
   | .lit _ => true
@@ -144,7 +146,7 @@ def Atom.isLit : Atom → Bool
 
 /-- a bound function without dependencies is a plain callable (a Dynamic value for Integer): outside the model -/
 def Atom.supported : Atom → Bool
-  | .fn [] _ _ => false
+  | .fn [] _ _ _ => false
   | _ => true
 
 def Rhs.supported : Rhs → Bool
@@ -164,7 +166,7 @@ def depsOf (r : Rhs) (nested : Bool) : List SrcP :=
 def resolveAtom (c : Cfg) (w : World) : Atom → Option Int
   | .lit n => some n
   | .par s i => readSrc w (s, i)
-  | .fn deps k _ => (deps.mapM (readSrc w)).map (c.F k)
+  | .fn deps k _ _ => (deps.mapM (readSrc w)).map (c.F k)
 
 def Atom.litVal : Atom → Option Int
   | .lit n => some n
@@ -182,6 +184,21 @@ def resolveRhs (c : Cfg) (w : World) (r : Rhs) (nested : Bool) : Option Val :=
   match r with
   | .atom a => (resolveAtom c w a).map .int
   | .cont items => if nested then (items.mapM (resolveAtom c w)).map .tup else plainOf r
+
+/-- does evaluating the atom raise `Skip` on the current source values -/
+def Atom.skips (c : Cfg) (w : World) : Atom → Bool
+  | .fn deps k _ (some b) =>
+    match deps.mapM (readSrc w) with
+    | some xs => decide (c.F k xs < b)
+    | none => false
+  | _ => false
+
+/-- src: the `except Skip: value = Undefined` of `_resolve_ref` / `_sync_refs`: resolving the reference
+raises `Skip` (a container is only resolved item by item on a `nested_refs` parameter) -/
+def skipsRhs (c : Cfg) (w : World) (r : Rhs) (nested : Bool) : Bool :=
+  match r with
+  | .atom a => a.skips c w
+  | .cont items => nested && items.any (Atom.skips c w)
 
 def Val.toRhs : Val → Rhs
   | .int n => .atom (.lit n)
@@ -289,12 +306,19 @@ def resolveForSet (c : Cfg) (d : PDecl) (linked : Bool) (rhs : Rhs) (w : World) 
       | some v => some (some v, .link rhs)
       | none => none
 
+/-- the reference handed to an `allow_refs` parameter resolved to `Undefined` (its evaluation raised `Skip`) -/
+def skipsForSet (c : Cfg) (d : PDecl) (rhs : Rhs) (w : World) : Bool :=
+  rhs.supported && d.allowRefs && !(depsOf rhs d.nestedRefs).isEmpty && skipsRhs c w rhs d.nestedRefs
+
 /-- `t.p = rhs` on an initialised instance, up to the event (the caller announces it) -/
 def setInst (c : Cfg) (t p : Nat) (rhs : Rhs) (w : World) : Res × World × List (Nat × Val) :=
   match w.tgts[t]?, c.decl t p with
   | some tg, some d =>
     match tg.read p, resolveForSet c d ((dictGet tg.refs p).isSome) rhs w with
-    | some old, some (v, rl) => setCore c t p d old v rl false w
+    | some old, some (v, rl) =>
+      -- `if is_async or val is Undefined: relink(); return` — no validation, no store, no event
+      if skipsForSet c d rhs w then (.ok, applyRelink c t p rl w, [])
+      else setCore c t p d old v rl false w
     | _, _ => (.raised .notModelled, w, [])
   | _, _ => (.raised .notModelled, w, [])
 
@@ -361,7 +385,7 @@ def syncRefs (c : Cfg) (t : Nat) (d : SrcP) (w : World) : Res × World × List E
   match w.tgts[t]?, c.decls[t]? with
   | some tg, some ds =>
     let hit := tg.refs.filter fun kv => match ds[kv.1]? with
-      | some pd => (depsOf kv.2 pd.nestedRefs).contains d
+      | some pd => (depsOf kv.2 pd.nestedRefs).contains d && !skipsRhs c w kv.2 pd.nestedRefs   -- Skip: `continue`
       | none => false
     match hit.mapM (fun kv => (resolveRhs c w kv.2 (((ds[kv.1]?).map (·.nestedRefs)).getD false)).map (kv.1, ·)) with
     | some updates =>
@@ -468,6 +492,10 @@ def ctorKeys (c : Cfg) (ds : List PDecl) (w : World) : List (Nat × Rhs) → Tar
       | none => (.raised .notModelled, tg)
       | some (none, _) => (.raised .value, tg)
       | some (some v, rl) =>
+        -- resolved is Undefined (Skip): the link is recorded, nothing is set
+        if skipsForSet c d rhs w then
+          ctorKeys c ds w rest { tg with refs := match rl with | .link r => tg.refs ++ [(k, r)] | _ => tg.refs }
+        else
         if !d.valid v then (.raised .value, tg)
         else if d.readonly then (.raised .type_, tg)
         else
